@@ -89,6 +89,27 @@ def gen_forward(rng, tier):
     case = det_bn(rng) if det else gen.rand_bn(rng, nmin=1, nmax=4, maxcard=3, name_kind=rng.choice(["str", "word", "int", "int0"]),
                                                label_kind=rng.choice(["permint", "str", "int", "shiftint"]), mincard=1)
     n = len(case["nodes"])
+    if not det and rng.random() < .6:
+        # columns whose LAST state is impossible and whose float entries do not add up to exactly 1.0 (odd denominators): the
+        # samplers repair such columns before drawing, and must not give the impossible state any mass
+        for c in case["cpds"]:
+            k = len(c["table"])
+            if k < 2:
+                continue
+            ncols = len(c["table"][0])
+            cols = []
+            for _ in range(ncols):
+                if rng.random() < .2:
+                    w = [rng.randint(1, 23) for _ in range(k - 1)]
+                    t = sum(w)
+                    cols.append([Fraction(x, t) for x in w] + [Fraction(0)])
+                else:
+                    # binary floats normalised in floating point: their sum is 1 only up to an ulp (exact dyadic rationals for the model)
+                    u = [rng.random() for _ in range(k - 1)]
+                    t = sum(u)
+                    cols.append([Fraction(x / t) for x in u] + [Fraction(0)])
+            c["table"] = [[rs(cols[j][i]) for j in range(ncols)] for i in range(k)]
+        case["zero_last"] = True
     case["det"] = det
     case["size"] = rng.choice([1, 2, 50, 400]) if det else rng.choice([1, 3, 3000])
     case["seed"] = rng.choice([0, rng.randrange(10 ** 6), rng.randrange(10 ** 6), rng.randrange(10 ** 6)])     # 0 is a legal seed
@@ -166,6 +187,13 @@ def gen_ev(rng, tier):
                        label_kind=rng.choice(["permint", "str", "int", "shiftint"]), mincard=2)
     n = len(case["nodes"])
     ev = rng.sample(range(n), rng.randint(1, min(2, n - 1)))
+    if rng.random() < .35:
+        # a child with several parents of DIFFERENT cardinalities, evidence on the child only: every parent configuration occurs
+        case = gen.rand_bn(rng, nmin=3, nmax=4, maxcard=4, name_kind=rng.choice(["str", "int0"]), shape="family", mincard=2, dup=False,
+                           label_kind=rng.choice(["permint", "str", "int"]), positive=True)
+        n = len(case["nodes"])
+        child = max(range(n), key=lambda v: sum(1 for _, w in case["edges"] if w == v))
+        ev = [child]
     case["ev"] = [[v, rng.randrange(case["card"][v])] for v in ev]
     case["kind"] = rng.choice(["rejection", "lw", "lw"])
     case["size"] = rng.choice([1, 5, 2000])
@@ -376,11 +404,54 @@ def run_sim(case, drv):
     return ok(nontrivial=bool(case["edges"]), **tags)
 
 
+# ----------------------------------------------------------------------------- impossible states of roots
+def gen_zero_state(rng, tier):
+    k = rng.randint(3, 7)
+    u = [rng.random() for _ in range(k - 1)]
+    t = sum(u)
+    col = [Fraction(x / t) for x in u] + [Fraction(0)]           # floats normalised in floating point, last state impossible
+    pos = rng.choice([k - 1, k - 1, 0, rng.randrange(k)])        # where the impossible state sits
+    col[pos], col[k - 1] = col[k - 1], col[pos]
+    return {"k": k, "col": [rs(x) for x in col], "zero": pos, "seed": rng.randrange(10 ** 6), "size": rng.choice([1, 5, 50]),
+            "how": rng.choice(["forward", "forward", "lw", "simulate"])}
+
+
+def run_zero_state(case, drv):
+    """a root whose column does not add up to 1.0 exactly in floats is repaired before drawing: the repair must leave the impossible
+    state impossible and the call must succeed"""
+    from pgmpy.models import BayesianNetwork
+    from pgmpy.factors.discrete import TabularCPD
+    from pgmpy.sampling import BayesianModelSampling
+    k = case["k"]
+    bn = BayesianNetwork()
+    bn.add_node("r")
+    bn.add_cpds(TabularCPD("r", k, [[float(Fraction(x))] for x in case["col"]]))
+    tags = dict(k=k, how=case["how"])
+    try:
+        if case["how"] == "forward":
+            df = BayesianModelSampling(bn).forward_sample(size=case["size"], seed=case["seed"], show_progress=False)
+        elif case["how"] == "lw":
+            df = BayesianModelSampling(bn).likelihood_weighted_sample(evidence=[], size=case["size"], seed=case["seed"], show_progress=False)
+        else:
+            df = bn.simulate(n_samples=case["size"], seed=case["seed"], show_progress=False)
+    except Exception as e:
+        return fail(f"{case['how']} on a valid one-node network raised {type(e).__name__}: {e}", **tags)
+    if len(df) != case["size"]:
+        return fail(f"{len(df)} rows, requested {case['size']}", **tags)
+    vals = [int(x) for x in df["r"]]
+    if any(v == case["zero"] for v in vals):
+        return fail(f"state {case['zero']} has probability 0 but was sampled", **tags)
+    if any(not (0 <= v < k) for v in vals):
+        return fail(f"sampled values {sorted(set(vals))} are not states of the variable", **tags)
+    return ok(nontrivial=True, **tags)
+
+
 STREAMS = [
     Stream("forward", gen_forward, run_forward, quick=360, thorough=3600),
     Stream("evidence", gen_ev, run_ev, quick=300, thorough=3000),
     Stream("gibbs", gen_gibbs, run_gibbs, quick=300, thorough=3000),
     Stream("simulate", gen_sim, run_sim, quick=180, thorough=1800),
+    Stream("zero_state", gen_zero_state, run_zero_state, quick=1800, thorough=18000),
 ]
 for _s in STREAMS:
     _s.limit = 20          # a rejection loop that cannot hit the evidence never returns: report instead of hanging
